@@ -2348,5 +2348,64 @@ def c02_check_name_tests():
 
 EXTRACTORS += [c02_check_name_tests]
 
+# ---------------------------------------------------------------- unify: shape of typer/unify.rs (arms of `unify`, diagnostics)
+def unify_gen_shape():
+    """the sequence of arms of the `match (&l_norm, &r_norm)` in `Typer::unify` (constructor pairs, in source order)
+    and the diagnostic messages `occurs` / `unify` push (text up to the first `{`), in source order"""
+    t = src("crates/compiler/src/typer/unify.rs")
+    try:
+        o0, o1 = t.index("fn occurs("), t.index("fn substitute_ty_params(")
+        u0, u1 = t.index("    fn unify(&mut self"), t.index("    pub(crate) fn fresh_ty_var")
+        n0 = t.index("    fn norm(&mut self")
+    except ValueError:
+        raise Exception("anchor lost: typer/unify.rs fn occurs / fn norm / fn unify / fn fresh_ty_var")
+    if not (o0 < o1 < n0 < u0 < u1):
+        raise Exception("anchor lost: order of occurs / norm / unify in typer/unify.rs")
+    reg = t[u0:u1]
+    if "let l_norm = self.norm(l);\n        let r_norm = self.norm(r);\n        match (&l_norm, &r_norm) {" not in reg:
+        raise Exception("anchor lost: unify no longer starts with norm(l); norm(r); match (&l_norm, &r_norm)")
+    # Model/Unify.lean::solveEqs reads the TypeEqual arm of Typer::solve as "unify, note progress, go on"
+    if not re.search(r"Constraint::TypeEqual\(l, r\) => \{\s*if self\.unify\(diagnostics, &l, &r\) \{\s*changed = true;\s*\}\s*\}", t):
+        raise Exception("anchor lost: the Constraint::TypeEqual arm of Typer::solve is no longer `if self.unify(..) { changed = true; }`")
+    arms, acc = [], None
+    for line in reg.split("\n"):
+        if acc is None and re.match(r"^ {12}(\(|\| \(|_ =>)", line):
+            acc = ""
+        if acc is not None:
+            acc += line + "\n"
+            if "=>" in line:
+                cs = re.findall(r"tast::Ty::(\w+)", acc.split("=>")[0])
+                arms.append(",".join(cs) if cs else "_")
+                acc = None
+    msgs = [m.strip().rstrip(":") for m in re.findall(r'format!\(\s*"([^"{]*)', t[o0:o1]) + re.findall(r'format!\(\s*"([^"{]*)', reg)]
+    # the diagnostics of Typer::solve and instantiate_struct_field_ty (full format strings, source order)
+    try:
+        i0, i1 = t.index("fn instantiate_struct_field_ty("), t.index("fn decompose_struct_type(")
+        s0 = t.index("    pub fn solve(&mut self")
+    except ValueError:
+        raise Exception("anchor lost: instantiate_struct_field_ty / decompose_struct_type / Typer::solve")
+    smsgs = re.findall(r'format!\(\s*"([^"]*)"', t[i0:i1]) + re.findall(r'format!\(\s*"([^"]*)"', t[s0:n0])
+    if "while changed {" not in t[s0:n0] or "let mut changed = true;" not in t[s0:n0]:
+        raise Exception("anchor lost: the `while changed` loop of Typer::solve")
+    if len(arms) < 10 or len(msgs) < 5:
+        raise Exception(f"unify.rs: unexpected shape (arms={len(arms)}, messages={len(msgs)})")
+    q = lambda s: '"' + s.replace("\\", "\\\\").replace('"', '\\"') + '"'
+    write_if_changed("UnifyShape.lean", GEN_HEADER.format(src="crates/compiler/src/typer/unify.rs") + f"""
+namespace Goml.Gen
+
+/-- the arms of `match (&l_norm, &r_norm)` in `Typer::unify`, in source order (the constructors named in each pattern) -/
+def unifyArms : List String := [{", ".join(q(a) for a in arms)}]
+
+/-- the diagnostics `occurs` and `unify` push, in source order (text before the first placeholder) -/
+def unifyMessages : List String := [{", ".join(q(m) for m in msgs)}]
+
+/-- the diagnostics of `instantiate_struct_field_ty` and `Typer::solve`, in source order (format strings) -/
+def solveMessages : List String := [{", ".join(q(m) for m in smsgs)}]
+
+end Goml.Gen
+""")
+
+EXTRACTORS += [unify_gen_shape]
+
 if __name__ == "__main__":
     main()
